@@ -563,6 +563,16 @@ func prApply(p *syncer.Proof, mu *prMut, env *prMutEnv) (string, int, bool) {
 		out[i], out[j] = out[j], out[i]
 		p.Entries = out
 		return desc("entries %d,%d", i, j), i, true
+	case "tonil":
+		if !inRange || es[i] == nil {
+			return "", 0, false
+		}
+		end, _, ok := prSpan(es, i, p.V, 0)
+		if !ok {
+			end = i + 1
+		}
+		p.Entries = prCut(es, i, end, [][]byte{nil})
+		return desc("entries %d..%d -> nil", i, end-1), i, true
 	case "prune", "tohash":
 		if !inRange || len(es[i]) == 0 || es[i][0] != prEntryFull {
 			return "", 0, false
